@@ -109,8 +109,17 @@ type dynState struct {
 
 var dyn *dynState
 
+// a pool token: i/v/n = class, upper case = the pool is DISABLED (closed to new assignments; it keeps its blocks)
+func lower(c byte) byte {
+	if c >= 'A' && c <= 'Z' {
+		return c + 32
+	}
+	return c
+}
+func isDisabled(c byte) bool { return c >= 'A' && c <= 'Z' }
+
 func classModes(c byte) (encap.Mode, encap.Mode) {
-	switch c {
+	switch lower(c) {
 	case 'i':
 		return encap.Always, encap.Never
 	case 'v':
@@ -120,7 +129,7 @@ func classModes(c byte) (encap.Mode, encap.Mode) {
 }
 
 func classPoolType(c byte) proto.IPPoolType {
-	switch c {
+	switch lower(c) {
 	case 'i':
 		return proto.IPPoolType_IPIP
 	case 'v':
@@ -139,14 +148,14 @@ func (d *dynState) encapFlags() [3]bool {
 	for p, c := range d.classes {
 		i, v := classModes(c)
 		n := cnet.MustParseCIDR(poolCIDR(p))
-		kvs.KVPairs = append(kvs.KVPairs, &model.KVPair{Key: model.IPPoolKey{CIDR: netip.MustParsePrefix(poolCIDR(p))}, Value: &model.IPPool{CIDR: n, IPIPMode: i, VXLANMode: v}})
+		kvs.KVPairs = append(kvs.KVPairs, &model.KVPair{Key: model.IPPoolKey{CIDR: netip.MustParsePrefix(poolCIDR(p))}, Value: &model.IPPool{CIDR: n, IPIPMode: i, VXLANMode: v, Disabled: isDisabled(c)}})
 	}
 	ec := calc.NewEncapsulationCalculator(d.cfg, kvs)
 	return [3]bool{ec.IPIPEnabled(), ec.VXLANEnabled(), ec.NoEncapNeeded()}
 }
 
 func (d *dynState) poolMsgs(p int) []*proto.RouteUpdate {
-	c := d.classes[p]
+	c := lower(d.classes[p]) // a disabled pool keeps its blocks: the route resolver goes on emitting its routes
 	tt := &proto.TunnelType{Ipip: c == 'i', Vxlan: c == 'v'}
 	return []*proto.RouteUpdate{
 		{Types: proto.RouteType_REMOTE_WORKLOAD, IpPoolType: classPoolType(c), Dst: remoteBlock(p), DstNodeName: "n02", DstNodeIp: "172.16.0.2", SameSubnet: true, TunnelType: tt},
@@ -254,7 +263,7 @@ func (d *dynState) confdInit() {
 
 func (d *dynState) confdPool(p int) {
 	i, v := classModes(d.classes[p])
-	js, err := json.Marshal(&model.IPPool{CIDR: cnet.MustParseCIDR(poolCIDR(p)), IPIPMode: i, VXLANMode: v})
+	js, err := json.Marshal(&model.IPPool{CIDR: cnet.MustParseCIDR(poolCIDR(p)), IPIPMode: i, VXLANMode: v, Disabled: isDisabled(d.classes[p])})
 	if err != nil {
 		panic(err)
 	}
@@ -320,7 +329,7 @@ func (d *dynState) show(h *rt.H, op string) string {
 	for p, c := range d.classes {
 		fr, fl := d.felixHas(remoteBlock(p)), d.felixHas(localBlock(p))
 		i, v := classModes(c)
-		pl := &model.IPPool{CIDR: cnet.MustParseCIDR(poolCIDR(p)), IPIPMode: i, VXLANMode: v}
+		pl := &model.IPPool{CIDR: cnet.MustParseCIDR(poolCIDR(p)), IPIPMode: i, VXLANMode: v, Disabled: isDisabled(c)}
 		bird := d.birdVerdict(p)
 		if d.sub {
 			// cross-check: the single-statement path used by the static ops agrees with the rendered filter
@@ -339,7 +348,7 @@ func (d *dynState) show(h *rt.H, op string) string {
 			continue
 		}
 		if mustHold {
-			in := map[string]any{"op": op, "pool": p, "class": string(c), "felix_setting": fcanon, "bgp_setting": bgpEff,
+			in := map[string]any{"op": op, "pool": p, "class": string(c), "disabled": isDisabled(c), "felix_setting": fcanon, "bgp_setting": bgpEff,
 				"felix_programs_remote_block": fr, "felix_programs_local_block": fl, "bird_accepts": bird, "history": append([]string{}, dynHist...)}
 			switch {
 			case (fr || fl) && bird:
@@ -450,8 +459,22 @@ func genDyn(h *rt.H) []string {
 	}
 	n := 2 + h.Intn(3)
 	cs := make([]byte, n)
+	pick := func() byte {
+		c := "ivn"[h.Intn(3)]
+		if h.Intn(4) == 0 {
+			c -= 32 // disabled pool
+		}
+		return c
+	}
 	for i := range cs {
-		cs[i] = "ivn"[h.Intn(3)]
+		cs[i] = pick()
+	}
+	if h.Intn(6) == 0 { // every pool of one class disabled
+		for i := range cs {
+			if lower(cs[i]) == 'n' {
+				cs[i] = 'N'
+			}
+		}
 	}
 	ops := []string{fmt.Sprintf("dnew %s %s %s", f, bb, string(cs))}
 	pairs := [][2]string{{enc(v3.EnabledIPIPOnly), enc(v3.EnabledNoEncapOnly)}, {enc(v3.Enabled), enc(v3.Disabled)}, {enc(v3.Disabled), enc(v3.Enabled)},
@@ -485,7 +508,10 @@ func genDyn(h *rt.H) []string {
 			// prefer a class another pool already has (and leave one pool of the old class): no restart
 			c = cs[h.Intn(n)]
 		} else {
-			c = "ivn"[h.Intn(3)]
+			c = pick()
+		}
+		if h.Intn(8) == 0 { // only the disabled flag flips
+			c = cs[p] ^ 32
 		}
 		cs[p] = c
 		ops = append(ops, fmt.Sprintf("dset %d %c", p, c))
